@@ -118,15 +118,15 @@ Qed.
 (* ------------------------------------------------------------ norm2 / norm3 *)
 Lemma scaled2 (s b : R) : 0 < b -> sqrt (s / b * (s / b) + 1) * b = sqrt (s * s + b * b).
 Proof.
-  intros Hb. rewrite <- (sqrt_square b) at 3 by lra. rewrite <- sqrt_mult_alt.
-  - f_equal. field. lra.
-  - assert (0 <= s / b * (s / b)) by apply Rle_0_sqr. lra.
+  intros Hb. assert (0 <= s / b * (s / b)) by apply Rle_0_sqr.
+  transitivity (sqrt (s / b * (s / b) + 1) * sqrt (b * b)); [rewrite (sqrt_square b) by lra; reflexivity|].
+  rewrite <- sqrt_mult_alt by lra. f_equal. field. lra.
 Qed.
 Lemma scaled3 (s m b : R) : 0 < b -> sqrt (s / b * (s / b) + m / b * (m / b) + 1) * b = sqrt (s * s + m * m + b * b).
 Proof.
-  intros Hb. rewrite <- (sqrt_square b) at 4 by lra. rewrite <- sqrt_mult_alt.
-  - f_equal. field. lra.
-  - assert (0 <= s / b * (s / b)) by apply Rle_0_sqr. assert (0 <= m / b * (m / b)) by apply Rle_0_sqr. lra.
+  intros Hb. assert (0 <= s / b * (s / b)) by apply Rle_0_sqr. assert (0 <= m / b * (m / b)) by apply Rle_0_sqr.
+  transitivity (sqrt (s / b * (s / b) + m / b * (m / b) + 1) * sqrt (b * b)); [rewrite (sqrt_square b) by lra; reflexivity|].
+  rewrite <- sqrt_mult_alt by lra. f_equal. field. lra.
 Qed.
 Lemma abs_sq (x : R) : Rabs x * Rabs x = x * x.
 Proof. unfold Rabs. destruct (Rcase_abs x); ring. Qed.
@@ -134,10 +134,10 @@ Proof. unfold Rabs. destruct (Rcase_abs x); ring. Qed.
 Theorem norm2_spec (x y : R) : real_norm2 R_ops x y = sqrt (x * x + y * y).
 Proof.
   unfold real_norm2. rewrite !isinf_R. uo. rewrite <- (abs_sq x), <- (abs_sq y).
-  pose proof (Rabs_pos x). pose proof (Rabs_pos y). set (a := Rabs x) in *. set (b := Rabs y) in *.
+  pose proof (Rabs_pos x). pose proof (Rabs_pos y). generalize dependent (Rabs y). generalize dependent (Rabs x). intros a Ha b Hb.
   destruct (Rltb_spec b a); cbn [fst snd].
   - destruct (Reqb_spec a 0).
-    + assert (a = 0) by lra. assert (b = 0) by lra. subst a b. replace (0 * 0 + 0 * 0) with 0 by ring. rewrite sqrt_0. reflexivity.
+    + assert (a = 0) by lra. assert (b = 0) by lra. replace (a * a + b * b) with 0 by nra. rewrite sqrt_0. reflexivity.
     + rewrite scaled2 by lra. f_equal. ring.
   - destruct (Reqb_spec b 0).
     + assert (a = 0) by lra. replace (a * a + b * b) with 0 by nra. rewrite sqrt_0. reflexivity.
@@ -157,8 +157,8 @@ Qed.
 Theorem norm3_spec (x y z : R) : real_norm3 R_ops x y z = sqrt (x * x + y * y + z * z).
 Proof.
   unfold real_norm3. rewrite !isinf_R. uo. rewrite <- (abs_sq x), <- (abs_sq y), <- (abs_sq z).
-  pose proof (Rabs_pos x). pose proof (Rabs_pos y). pose proof (Rabs_pos z).
-  set (a := Rabs x) in *. set (b := Rabs y) in *. set (c := Rabs z) in *.
+  pose proof (Rabs_pos x) as Ha. pose proof (Rabs_pos y) as Hb. pose proof (Rabs_pos z) as Hc.
+  revert Ha Hb Hc. generalize (Rabs x) (Rabs y) (Rabs z). intros a b c Ha Hb Hc.
   assert (Z0 : forall u v w, 0 <= u -> 0 <= v -> u <= w -> v <= w -> w = 0 -> 0 = sqrt (u * u + v * v + w * w)).
   { intros u v w ? ? ? ? ?. replace (u * u + v * v + w * w) with 0 by nra. rewrite sqrt_0. reflexivity. }
   destruct (Rltb_spec b a); cbn [fst snd].
@@ -198,8 +198,8 @@ Theorem cart2sph_spec (x y z : R) :
   let r := sqrt (x * x + y * y) in
   real_cart2sph R_ops x y z = (sqrt (x * x + y * y + z * z), real_atan2 R_ops y x, real_atan2 R_ops z r).
 Proof.
-  unfold real_cart2sph. rewrite !norm2_spec. cbv zeta. repeat f_equal.
-  rewrite sqrt_sqrt; [reflexivity|nra].
+  unfold real_cart2sph. rewrite !norm2_spec. cbv zeta.
+  rewrite (sqrt_sqrt (x * x + y * y)) by nra. reflexivity.
 Qed.
 Theorem sph2cart_radius (rho theta alpha : R) :
   let '(x, y, z) := real_sph2cart R_ops rho theta alpha in x * x + y * y + z * z = rho * rho.
